@@ -219,6 +219,9 @@ def run_case(pattern, dims, sel, form, mode):
     if mode == "read":
         if has_list:
             return "n/a", None
+        # the array has been read before, with other keys (nothing may be remembered from earlier accesses)
+        attempt(lambda: X[...])
+        attempt(lambda: X[{dims[-1]: items[dims[-1]][0]}])
         st, got = attempt(lambda: X[key])
         if st == "raised":
             return fail("raised", f"read raised {got}")
@@ -273,6 +276,11 @@ def run_case(pattern, dims, sel, form, mode):
                 dl = dl[::-1]
                 vals = np.ascontiguousarray(vals.transpose(tuple(reversed(range(vals.ndim)))))
             rhs = FlodymArray(dims=DimensionSet(dim_list=dl), values=vals)
+
+    # the array has been written before, through another key (values restored afterwards)
+    keep = X.values.copy()
+    attempt(lambda: X.__setitem__({dims[0]: items[dims[0]][-1]}, 0.0))
+    X.values[...] = keep
 
     def do():
         X[key] = rhs
